@@ -59,14 +59,43 @@ def gen_module(rng, nnames, valid_bias=0.9):
     return 'L ' + ' '.join(ds)
 
 
-def gen_history(rng, nops, gen_share):
+def gen_script(rng, nnames, gen_share):
+    """`J` op: MIR_link with a scripted resolver that LOADS modules while the link is running (libraries loaded on
+    demand).  Entries for 1..nnames names; an entry loads 0-2 modules (a library exporting/defining the name, often
+    importing further names: chains) and answers with the library's definition (m), an external (x<a>) or NULL (0)."""
+    mask = rng.choice([0, 0, (1 << nnames) - 1, rng.randrange(1 << nnames)])
+    iface = rng.choice('gl') if rng.random() < gen_share else rng.choice('iiiq' if QUIET['ok'] else 'i')
+    out = ['J %d %s' % (mask, iface)]
+    for n in rng.sample(range(nnames), rng.randint(1, nnames)):
+        ans = rng.choice(['m', 'm', 'm', 'm', 'x%d' % rng.randrange(8), '0'])
+        out.append('@ %d %s' % (n, ans))
+        for j in range(rng.choice([0, 1, 1, 1, 1, 2])):
+            if rng.random() < 0.7:
+                # a library: defines n (exported or not, small / big function, data), imports others
+                d = rng.choice(['F', 'F', 'B', 'D', 'S', 'P'])
+                ds = rng.choice([['e%d' % n, '%s%d' % (d, n)], ['%s%d' % (d, n), 'e%d' % n], ['%s%d' % (d, n)],
+                                 ['f%d' % n, '%s%d' % (d, n), 'e%d' % n]])
+                for o in range(nnames):
+                    if o != n and rng.random() < 0.5:
+                        ds = ds + rng.choice([['i%d' % o], ['i%d' % o], ['e%d' % o, 'F%d' % o], ['e%d' % o, 'D%d' % o]])
+                if rng.random() < 0.2:
+                    rng.shuffle(ds)
+                out.append('+ ' + ' '.join(ds))
+            else:
+                out.append('+ ' + gen_module(rng, nnames, 0.97)[2:])
+    return ' '.join(out)
+
+
+def gen_history(rng, nops, gen_share, reent=0.0):
     nnames = rng.choice([1, 2, 2, 3, 3, 4])
     ops = []
     if rng.random() < 0.6:
         ops.append('R 1')
     for _ in range(nops):
         k = rng.random()
-        if k < 0.50:
+        if reent and rng.random() < reent:
+            ops.append(gen_script(rng, nnames, gen_share))
+        elif k < 0.50:
             ops.append(gen_module(rng, nnames))
         elif k < 0.64:
             ops.append('X %d %d' % (rng.randrange(nnames), rng.randrange(8)))
@@ -81,7 +110,7 @@ def gen_history(rng, nops, gen_share):
             if rng.random() < 0.08:
                 iface = 'n'      # MIR_link with a NULL set_interface: binds, keeps the queue
             ops.append('K %d %s' % (mask, iface))
-    if not ops[-1].startswith('K'):
+    if not ops[-1].startswith('K') and not ops[-1].startswith('J'):
         ops.append('K %d i' % ((1 << nnames) - 1))
     return ' ; '.join(ops)
 
@@ -109,12 +138,20 @@ EXH_ALPHABET3 = ['L e0 F0', 'L e1 S1 e0 B0', 'L i1 i0', 'L i0', 'X 0 2', 'R 1', 
 EXH_ALPHABET5 = ['L e0 F0', 'L e0 B0', 'L e0 D0', 'L e0 S0', 'L e0 P0', 'X 0 1', 'L i0', 'K 1 i', 'K 0 i', 'R 1', 'R 0']
 
 
+# round 3 (wave 5): links whose resolver loads modules itself (MIR_load_module re-entered from the import resolver while
+# MIR_link walks the queue): a library that imports a name defined by an external / by an earlier or later load / by a
+# second library the resolver loads (chain), answers m / x / NULL, a rejected library load, before and after plain links
+EXH_ALPHABET6 = ['L i0', 'L i0 i1', 'L e1 F1', 'X 1 3', 'R 1', 'J 0 i @ 0 m + e0 F0 i1',
+                 'J 0 i @ 0 m + e0 B0 i1 @ 1 m + e1 D1', 'J 2 g @ 0 x5 + e0 F0 i1', 'J 0 i @ 1 m + e0 F0 + F1 i0', 'J 0 i @ 0 0 + e0 F0',
+                 'K 0 i', 'K 3 i']
+
+
 def exhaustive(maxlen, alphabet=None):
     out = []
     alphabet = alphabet or EXH_ALPHABET
     for n in range(1, maxlen + 1):
         for t in itertools.product(alphabet, repeat=n):
-            if not t[-1].startswith('K') and not t[-1].startswith('L'):
+            if t[-1][0] not in 'KLJ':
                 continue  # a history ending in X/R shows nothing its prefix did not
             out.append(' ; '.join(t))
     return out
@@ -182,8 +219,8 @@ def prop_view(line):
             mods = re.findall(r'([mp]\d+)\{([^}]*)\}', st)
             out.append('ok ' + ' '.join('%s{%s}' % (m, ' '.join(b for b in bs.split() if b.startswith('i')))
                                         for m, bs in mods))
-        elif st.startswith('E:undeclared_op_ref'):
-            out.append('E:undeclared_op_ref')
+        elif st.startswith('E:') and ' res=' in st:
+            out.append(st.split(' res=')[0])
         else:
             out.append(st)
     return ' | '.join(out)
@@ -193,7 +230,7 @@ def prop_pair(a, b):
     """(implementation, model) restricted to the property's observables.  A step the model rejects
     with `repeated_decl*` (a function clashing with something that is NOT an exported MIR function:
     the property text does not speak about it) ends the property-level comparison."""
-    sa, sb = a.split(' | '), b.split(' | ')
+    sa, sb = unwild(a, b).split(' | '), b.split(' | ')
     for i, t in enumerate(sb):
         if t == 'E:repeated_decl*':
             sa, sb = sa[:i], sb[:i]
@@ -201,8 +238,26 @@ def prop_pair(a, b):
     return prop_view(' | '.join(sa)), prop_view(' | '.join(sb))
 
 
+def unwild(a, b):
+    """the model prints the value of a call as `?` where it does not determine it (an import bound to a MIR function
+    while the resolver of the same link step went on to load a newer definition of the name: address of the older,
+    possibly the inlined body of the newer one); the implementation's value at that place is not compared"""
+    if '/?' not in b:
+        return a
+    ta, tb = a.split(' '), b.split(' ')
+    if len(ta) != len(tb):
+        return a
+    out = []
+    for x, y in zip(ta, tb):
+        close = '}' if y.endswith('}') else ''
+        if y.rstrip('}').endswith('/?') and '/' in x:
+            x = x.rstrip('}').rsplit('/', 1)[0] + '/?' + ('}' if x.endswith('}') else '')
+        out.append(x)
+    return ' '.join(out)
+
+
 def full_eq(a, b):
-    return a == b.replace('E:repeated_decl*', 'E:repeated_decl')
+    return unwild(a, b) == b.replace('E:repeated_decl*', 'E:repeated_decl')
 
 
 def correspond(impl, model, hs):
@@ -242,6 +297,36 @@ def shrink(impl, model, h, prop=False):
             ds = o.split()[1:]
             for j in range(len(ds)):
                 cand = sub[:i] + ['L ' + ' '.join(ds[:j] + ds[j + 1:])] + sub[i + 1:]
+                if fails(cand):
+                    sub = cand
+                    changed = True
+                    break
+            if changed:
+                break
+    # drop script entries / script modules / single declarations of J ops
+    changed = True
+    while changed:
+        changed = False
+        for i, o in enumerate(sub):
+            if not o.startswith('J'):
+                continue
+            w = o.split()
+            cands = []
+            for j in range(3, len(w)):
+                if w[j] == '@':      # the whole entry
+                    k = j + 1
+                    while k < len(w) and w[k] != '@':
+                        k += 1
+                    cands.append(w[:j] + w[k:])
+                elif w[j] == '+':    # one module
+                    k = j + 1
+                    while k < len(w) and w[k] not in '@+':
+                        k += 1
+                    cands.append(w[:j] + w[k:])
+                elif w[j - 1] != '@' and w[j - 2] != '@':   # one declaration
+                    cands.append(w[:j] + w[j + 1:])
+            for c in cands:
+                cand = sub[:i] + [' '.join(c)] + sub[i + 1:]
                 if fails(cand):
                     sub = cand
                     changed = True
@@ -350,7 +435,8 @@ def run(chk):
         hs += [l.strip() for l in open(corpus) if l.strip() and not l.startswith('#')]
     ncorpus = len(hs)
     ex = (exhaustive(4 if quick else 6) + exhaustive(3 if quick else 5, EXH_ALPHABET2)
-          + exhaustive(4 if quick else 5, EXH_ALPHABET3) + exhaustive(4 if quick else 5, EXH_ALPHABET5))
+          + exhaustive(4 if quick else 5, EXH_ALPHABET3) + exhaustive(4 if quick else 5, EXH_ALPHABET5)
+          + exhaustive(3 if quick else 5, EXH_ALPHABET6))
     if QUIET['ok']:
         ex += [h for h in exhaustive(5 if quick else 6, EXH_ALPHABET4) if 'q' in h and h.startswith('R 1')]
     rng = chk.rng('hist')
@@ -359,19 +445,32 @@ def run(chk):
             t = [rng.choice(rng.choice([EXH_ALPHABET, EXH_ALPHABET2, EXH_ALPHABET3, EXH_ALPHABET5])) for _ in range(rng.choice([5, 6, 7]))]
             t[-1] = rng.choice(['K 0 i', 'K 3 i', 'K 3 g', 'L i0 i1', 'L e0 F0'])
             ex.append(' ; '.join(t))
+        rng6 = chk.rng('reent-exh')
+        for _ in range(6000):   # length 4-6 over the re-entrant alphabet
+            t = [rng6.choice(EXH_ALPHABET6) for _ in range(rng6.choice([4, 5, 6]))]
+            t[-1] = rng6.choice([o for o in EXH_ALPHABET6 if o[0] in 'KJ'])
+            ex.append(' ; '.join(t))
     hs += ex
     nrand = 20000 if quick else 150000
     for i in range(nrand):
         hs.append(gen_history(rng, rng.choice([2, 4, 6, 9, 14]), gen_share=0.25 if quick else 0.4))
+    rng_re = chk.rng('reent')   # own stream: the histories above stay what they were
+    nre = 6000 if quick else 50000
+    for i in range(nre):
+        hs.append(gen_history(rng_re, rng_re.choice([2, 3, 4, 6, 9]), gen_share=0.25 if quick else 0.4, reent=0.3))
+    nrand += nre
     chk.log('%d histories (%d corpus, %d exhaustive, %d random)' % (len(hs), ncorpus, len(ex), nrand))
     for h in hs:
         ops = [o.strip() for o in h.split(';')]
-        chk.count(h, nontrivial=sum(1 for o in ops if o.startswith('K')) >= 1 and len(ops) >= 3)
+        chk.count(h, nontrivial=sum(1 for o in ops if o[:1] in ('K', 'J')) >= 1 and len(ops) >= 3)
     for h in hs[ncorpus + len(ex):]:
         for o in h.split(';'):
             w = o.split()
             if w:
-                chk.dist('ops', w[0] + (w[2] if w[0] == 'K' else ''))
+                chk.dist('ops', w[0] + (w[2] if w[0] in 'KJ' else ''))
+                if w[0] == 'J':
+                    chk.dist('resolver_script', 'entries=%d modules=%d answers=%s' % (
+                        w.count('@'), w.count('+'), ''.join(sorted(set(w[j + 2][0] for j in range(len(w)) if w[j] == '@')))))
         chk.dist('history_len', min(20, h.count(';') + 1))
     chk.cov['rule'] = ('histories of Load/LoadExternal/SetRedef/Link run on mir.c (harness/c13_link.c, fresh context per '
                       'history) and on the extracted Coq model; compared: error code of every step, resolver calls, and '
